@@ -5,7 +5,7 @@
    evaluated on the implementation's own observations. *)
 From Coq Require Import List NArith ZArith Bool String Ascii Strings.Byte.
 From FwdLib Require Import Bytes.
-From G03 Require Import Tables Tunnel Abstract Weak ReplyReader Switchover Deadlines.
+From G03 Require Import Tables Tunnel Abstract Weak ReplyReader Switchover Socks Deadlines.
 Import ListNotations.
 Open Scope N_scope.
 
@@ -155,6 +155,8 @@ Record ccase := {
   cc_cipher_w : N; cc_cipher_r : N;   (* bytes of ciphertext the proxy wrote to / read from it over the whole connection *)
   cc_head : list N;          (* the request head the client sent ([] = not compared: served through net/http's own reader) *)
   cc_lcsched : list nat;     (* sizes returned by the proxy's Reads on the client connection up to the reply *)
+  cc_socks : list N;         (* SOCKS5 upstream: the method-selection and CONNECT replies the scripted server sent ([] otherwise) *)
+  cc_dcread0 : N;            (* bytes the proxy read from the dialled connection before it replied to the client *)
   cc_early : list N; cc_skip : list N; cc_kept : list N;
   cc_trace : option (list label); cc_obs : obs
 }.
@@ -240,8 +242,17 @@ Definition early_ok (c : ccase) : bool :=
   | None => false
   end.
 
+(* behind a SOCKS5 upstream the proxy has read from the dialled connection exactly what the model of
+   x/net's client (Socks.v) consumes of the server's stream: the replies, nothing of what follows *)
+Definition socks_ok (c : ccase) : bool :=
+  negb (cc_mode c =? 3) ||
+  match socks_consumed (cc_socks c ++ o_sent (o_tc (cc_obs c))) with
+  | Some n => (n =? cc_dcread0 c) && (n =? len (cc_socks c))
+  | None => false
+  end.
+
 Definition cmodel_ok (c : ccase) : bool :=
-  cc_wellformed c && early_ok c && skip_ok (cc_mode c) (cc_fr c) (len (o_sent (o_tc (cc_obs c)))) (len (cc_skip c)) &&
+  cc_wellformed c && early_ok c && socks_ok c && skip_ok (cc_mode c) (cc_fr c) (len (o_sent (o_tc (cc_obs c)))) (len (cc_skip c)) &&
   match cc_trace c with
   | None => false
   | Some tr =>
